@@ -51,10 +51,9 @@ class GMRF(CallableModel):
         self.precision = precision
         self.rescale = rescale
 
-    def _call(self, *args, **kwargs) -> torch.Tensor:
-        diff_square = torch.pow(
-            self.field.tensor[..., :-1] - self.field.tensor[..., 1:], 2.0
-        )
+    def _weights(self) -> torch.Tensor:
+        """Returns the weights dividing the squared differences of the field
+        (None if the GMRF is neither time-aware nor weighted)."""
         if self.tree_model is not None:
             heights = torch.cat(
                 (
@@ -70,11 +69,21 @@ class GMRF(CallableModel):
             indices = torch.argsort(heights, descending=False)
             heights_sorted = torch.gather(heights, -1, indices)
             durations = heights_sorted[..., 1:] - heights_sorted[..., :-1]
-            diff_square /= (durations[..., :-1] + durations[..., 1:]) / 2.0
+            weights = (durations[..., :-1] + durations[..., 1:]) / 2.0
             if self.rescale:
-                diff_square *= heights_sorted[..., -1:]
+                weights = weights / heights_sorted[..., -1:]
+            return weights
         elif self.weights is not None:
-            diff_square /= self.weights
+            return getattr(self.weights, 'tensor', self.weights)
+        return None
+
+    def _call(self, *args, **kwargs) -> torch.Tensor:
+        diff_square = torch.pow(
+            self.field.tensor[..., :-1] - self.field.tensor[..., 1:], 2.0
+        )
+        weights = self._weights()
+        if weights is not None:
+            diff_square = diff_square / weights
 
         dim = self.field.shape[-1] - 1.0  # field dim
         precision = self.precision.tensor
@@ -88,21 +97,32 @@ class GMRF(CallableModel):
         return self.field.tensor.shape[:-1]
 
     def precision_matrix(self) -> torch.Tensor:
+        r"""Returns the precision matrix :math:`\tau D^T W^{-1} D` of the field,
+        where :math:`D` is the first-difference operator and :math:`W` the diagonal
+        matrix of weights (identity if the GMRF is neither time-aware nor weighted).
+        """
         dim = self.field.shape[-1]
         precision = self.precision.tensor
-        precision_matrix = torch.zeros(
-            self.field.shape[:-1] + (dim, dim),
+        off_diagonal = -precision.expand(self.field.shape[:-1] + (dim - 1,))
+        weights = self._weights()
+        if weights is not None:
+            off_diagonal = off_diagonal / weights
+        diagonal = torch.zeros(
+            off_diagonal.shape[:-1] + (dim,),
             dtype=self.field.dtype,
             device=self.field.device,
         )
-        precision_matrix[..., range(dim - 1), range(1, dim)] = precision_matrix[
-            ..., range(1, dim), range(dim - 1)
-        ] = -precision.expand(self.field.shape[:-1] + (dim - 1,))
+        diagonal[..., :-1] -= off_diagonal
+        diagonal[..., 1:] -= off_diagonal
 
-        precision_matrix[..., range(1, dim - 1), range(1, dim - 1)] = 2.0 * precision
-        precision_matrix[..., 0, 0] = precision_matrix[
-            ..., (dim - 1), (dim - 1)
-        ] = precision.squeeze(-1)
+        precision_matrix = torch.zeros(
+            off_diagonal.shape[:-1] + (dim, dim),
+            dtype=self.field.dtype,
+            device=self.field.device,
+        )
+        precision_matrix[..., range(dim - 1), range(1, dim)] = off_diagonal
+        precision_matrix[..., range(1, dim), range(dim - 1)] = off_diagonal
+        precision_matrix[..., range(dim), range(dim)] = diagonal
         return precision_matrix
 
     @classmethod
